@@ -257,8 +257,39 @@ def validate_trace(info, max_rounds=6):
     res = dict(lines=len(lines), lines_ok=0, rejections=[], ptype=info.get("ptype"), profile=info.get("profile"))
     cur = lines
     rounds = 0
+    def cut_after(cur, k):
+        """lines to continue with after line k (1-based) was rejected"""
+        nxt = next((i for i in range(k, len(cur)) if json.loads(cur[i]).get("a") == "Reset"), None)
+        end = nxt if nxt is not None else len(cur)
+        keep = []
+        for i in range(k, end):
+            e = json.loads(cur[i])
+            if e.get("a") == "Obs":
+                e["nolen"] = True
+                keep.append(json.dumps(e))
+        return keep + (cur[nxt:] if nxt is not None else [])
+
     while cur and rounds < max_rounds:
         rounds += 1
+        # harness-detected inconsistencies first
+        mk = next((i for i, ln in enumerate(cur) if any(('"' + m + '"') in ln for m in MARKERS)), None)
+        if mk is not None:
+            ev = json.loads(cur[mk])
+            start = max([i for i in range(mk + 1) if json.loads(cur[i]).get("a") == "Reset"] or [0])
+            marker = next(m for m in MARKERS if ('"' + m + '"') in cur[mk])
+            res["rejections"].append(dict(line=mk + 1, event=ev, marker=marker, expected=None,
+                                          steps=[json.loads(x) for x in cur[start:mk]][-60:]))
+            # validate what precedes it, then continue behind it
+            head = cur[:mk]
+            cur = cut_after(cur, mk + 1)
+            if not head:
+                continue
+            part = os.path.join(d, f"part{rounds}h.ndjson")
+            open(part, "w").write("\n".join(head) + "\n")
+            out = _tlc_trace(d, "TV", part)
+            if "No error has been found" in out:
+                res["lines_ok"] += len(head)
+            continue
         part = os.path.join(d, f"part{rounds}.ndjson")
         open(part, "w").write("\n".join(cur) + "\n")
         out = _tlc_trace(d, "TV", part)
@@ -287,15 +318,7 @@ def validate_trace(info, max_rounds=6):
                                       diag_tail=None if exp is not None else dout[-1500:]))
         # resynchronise at the next Reset; the observation-relative lines of the abandoned run are
         # self-contained and stay in (without the len facet, whose drift bookkeeping is lost)
-        nxt = next((i for i in range(k, len(cur)) if json.loads(cur[i]).get("a") == "Reset"), None)
-        end = nxt if nxt is not None else len(cur)
-        keep = []
-        for i in range(k, end):
-            e = json.loads(cur[i])
-            if e.get("a") == "Obs":
-                e["nolen"] = True
-                keep.append(json.dumps(e))
-        cur = keep + (cur[nxt:] if nxt is not None else [])
+        cur = cut_after(cur, k)
     res["rounds"] = rounds
     return res
 
@@ -365,13 +388,22 @@ def alg_laws(max_tw=3):
     return dict(max_tw=max_tw, prefixes_in_universes=n, wall=round(time.time() - t0, 1))
 
 
-OBS_FACETS = {"get": "Get", "kv": "GetKV", "has": "Contains", "lpm": "Lpm", "spm": "Spm", "cover": "Cover", "children": "Children"}
+OBS_FACETS = {"get": "Get", "kv": "GetKV", "has": "Contains", "lpm": "Lpm", "spm": "Spm", "cover": "Cover", "children": "Children",
+              "lpmp": "Lpm", "spmp": "Spm", "ck": "Cover", "cv": "Cover"}
+# inconsistencies the harness detects itself (twin APIs that disagree, runaway iteration); a line carrying
+# one is a disagreement by itself and must not reach TLC (mixed types cannot be compared there)
+MARKERS = ["VARIANTS-DIFFER", "ITER-KINDS-DIFFER", "KIND-VACANT", "KIND-OCCUPIED", "MUT-DIFFERS", "LEFT-DIFFERS", "VIEW_AT-DIFFERS", "EQ-INCONSISTENT", "DEPTH", "EXTRA",
+           "DIVERGED", "keys_values_differ", "prefix_value_differs", "as_view_differs", "has_side_differs", "accessors_differ"]
 
 
 def trace_mismatches(rej):
     """Turn one rejected trace line into mismatch records (kind, e, expected, got) for owners()."""
     ev, exp = rej["event"], rej["expected"]
     out = []
+    if rej.get("marker"):
+        e = ev if ev.get("a") != "Obs" else {"a": "Iter"}
+        return [dict(h=rej["steps"][-30:], line=rej["line"], kind="ret", e=e, expected="twin observers agree / traversal is finite",
+                     got=rej["marker"])]
     if exp is None:
         raise ToolError("could not diagnose rejected trace line: " + str(rej.get("diag_tail")))
     base = dict(h=rej["steps"][-30:], line=rej["line"])
@@ -479,6 +511,16 @@ def pair_owners(mm):
     if act.endswith("Mut"):
         o.add("C13")
     return o
+
+
+def has_nonzero_host(v):
+    if isinstance(v, dict):
+        if "n" in v and "h" in v and v["h"] != "0":
+            return True
+        return any(has_nonzero_host(x) for x in v.values())
+    if isinstance(v, list):
+        return any(has_nonzero_host(x) for x in v)
+    return False
 
 
 def strip_hosts(v):
